@@ -182,6 +182,40 @@ fn ob_lock_rw_writer_gate() {
   kani::cover!(true, "END");
 }
 
+// @obligation id=lock.rw.writer_gate_async props=C10 kind=hist tier=quick bound="read guard held; a WriteFuture queues; a ReadFuture polled afterwards queues behind it instead of acquiring; it is woken after the writer has released"
+#[kani::proof]
+#[kani::stub(std::thread::current::current, crate::verif_k_stubs::stub_thread_current)]
+#[kani::unwind(6)]
+fn ob_lock_rw_writer_gate_async() {
+  let l = HybridRwLock::new(0u8);
+  let r = l.try_read().unwrap();
+  let (w0, w1) = (waker(0), waker(1));
+  let mut wf = wfut(&l);
+  assert!(Pin::new(&mut wf).poll(&mut Context::from_waker(&w0)).is_pending());
+  let word = l.k_word();
+  assert!(word & WRITER_PENDING != 0 && word & READERS == READER_UNIT);
+  // an async reader arriving now must not overtake the queued writer (any acquisition form honours the gate)
+  let mut rf = rfut(&l);
+  assert!(Pin::new(&mut rf).poll(&mut Context::from_waker(&w1)).is_pending());
+  assert!(l.k_queue_len() == 2 && l.k_word() & READERS == READER_UNIT);
+  // ... also when it is polled again while still queued
+  assert!(Pin::new(&mut rf).poll(&mut Context::from_waker(&w1)).is_pending());
+  assert!(l.k_queue_len() == 2 && l.k_word() & READERS == READER_UNIT);
+  drop(r);
+  assert!(wakes(0) == 1 && wakes(1) == 0);
+  let g = Pin::new(&mut wf).poll(&mut Context::from_waker(&w0));
+  assert!(g.is_ready());
+  assert!(Pin::new(&mut rf).poll(&mut Context::from_waker(&w1)).is_pending());
+  drop(g); // the writer releases: the queued reader is owed (and gets) the wake
+  assert!(wakes(1) == 1);
+  let rg = Pin::new(&mut rf).poll(&mut Context::from_waker(&w1));
+  assert!(rg.is_ready());
+  assert!(l.k_queue_len() == 0 && l.k_word() == READER_UNIT);
+  drop(rg);
+  assert!(l.k_word() == 0);
+  kani::cover!(true, "END");
+}
+
 /// write guard held; ReadFuture A (waker 0) and WriteFuture B (waker 1) pending; release; drop one.
 fn step_future_cancel(drop_writer: bool) {
   let l = HybridRwLock::new(0u8);
